@@ -44,7 +44,14 @@ def run(unit, functions, repo, scratch, timeout=900):
             parts = host[len("src/"):-len(".rs")].split("/")
             if parts[-1] == "mod":
                 parts = parts[:-1]
-            f.write("#[doc(hidden)]\npub use crate::%s::verif_bounded;\n" % "::".join(parts))
+            # re-export upwards through the (private) ancestor modules
+            for depth in range(len(parts) - 1, 0, -1):
+                anc = parts[:depth]
+                cand = [os.path.join(copy, "src", *anc, "mod.rs"), os.path.join(copy, "src", *anc) + ".rs"]
+                af = [c for c in cand if os.path.exists(c)][0]
+                with open(af, "a") as h:
+                    h.write("\n#[doc(hidden)]\npub use self::%s::verif_bounded;\n" % parts[depth])
+            f.write("#[doc(hidden)]\npub use self::%s::verif_bounded;\n" % parts[0])
     # strip dev-dependencies and benches so that only the library is built
     ct = open(os.path.join(copy, "Cargo.toml")).read()
     import re
